@@ -441,4 +441,78 @@ theorem parseIpv6_render (gs : List Nat) (hlen : gs.length = 8) (hgs : ∀ g ∈
   unfold parseIpv6
   simp [h, hlen]
 
+/-! ### Chaosnet addresses: octal digits -/
+
+/-- value of octal digit octets, read left to right from `acc` -/
+def octVal (ds : List UInt8) (acc : Nat) : Nat := ds.foldl (fun a c => a * 8 + (c.toNat - 48)) acc
+
+theorem octVal_ge (ds : List UInt8) (acc : Nat) : acc ≤ octVal ds acc := by
+  induction ds generalizing acc with
+  | nil => exact Nat.le_refl _
+  | cons c ds ih =>
+    simp only [octVal, List.foldl_cons] at ih ⊢
+    have := ih (acc * 8 + (c.toNat - 48))
+    omega
+
+theorem octalText_digits (n : Nat) : ∀ c ∈ octalText n, ∃ d, d < 8 ∧ c = digitOctet d := by
+  fun_induction octalText n
+  case case1 n h => intro c hc; simp at hc; exact ⟨n, h, hc⟩
+  case case2 n h ih =>
+    intro c hc
+    simp at hc
+    rcases hc with hc | hc
+    · exact ih c hc
+    · exact ⟨n % 8, by omega, hc⟩
+
+theorem octalText_ne_nil (n : Nat) : octalText n ≠ [] := by
+  rw [octalText]; split <;> simp
+
+theorem octVal_octalText (n acc : Nat) : octVal (octalText n) acc = acc * 8 ^ (octalText n).length + n := by
+  fun_induction octalText n generalizing acc
+  case case1 n h =>
+    have := (digit_octet (d := n) (by omega)).2
+    simp [octVal, this]
+  case case2 n h ih =>
+    have hd := (digit_octet (d := n % 8) (by omega)).2
+    unfold octVal at ih ⊢
+    rw [List.foldl_append, ih]
+    simp only [List.foldl_cons, List.foldl_nil, hd, List.length_append, List.length_cons, List.length_nil]
+    rw [Nat.pow_succ, ← Nat.mul_assoc]
+    generalize acc * 8 ^ (octalText (n / 8)).length = X
+    have := Nat.div_add_mod n 8
+    rw [Nat.add_mul, Nat.add_assoc, Nat.mul_comm (n / 8) 8]
+    omega
+
+/-- the loop of `parse_chaosnet_address` on octal digits followed by a field end -/
+theorem chaosLoop_digits (sl : Nat) (ds rest : List UInt8) (hds : ∀ c ∈ ds, ∃ d, d < 8 ∧ c = digitOctet d)
+    (hrest : atFieldEnd rest = true) (acc : Nat) (hv : octVal ds acc ≤ 65535) :
+    chaosLoop sl (ds ++ rest) acc = .ok (octVal ds acc, rest) := by
+  induction ds generalizing acc with
+  | nil =>
+    cases rest with
+    | nil => rfl
+    | cons c t => simp [chaosLoop, hrest, octVal]
+  | cons c ds ih =>
+    obtain ⟨d, hd, rfl⟩ := hds c (by simp)
+    have hdo := digit_octet (d := d) (by omega)
+    have hplain : atFieldEnd (digitOctet d :: (ds ++ rest)) = false :=
+      atFieldEnd_plain _ (by
+        have := digit_plain hdo.1
+        simp only [plainOctet, Bool.and_eq_true, Bool.not_eq_true'] at this
+        exact this.1)
+    have hoct : (48 ≤ digitOctet d && digitOctet d ≤ 55) = true := by
+      simp only [Bool.and_eq_true, decide_eq_true_eq, UInt8.le_iff_toNat_le, hdo.2]
+      have h48 : (48 : UInt8).toNat = 48 := rfl
+      have h55 : (55 : UInt8).toNat = 55 := rfl
+      exact ⟨by omega, by omega⟩
+    have hstep : octVal (digitOctet d :: ds) acc = octVal ds (acc * 8 + d) := by
+      simp [octVal, hdo.2]
+    have hacc : ¬ acc * 8 > 65535 := by
+      have := octVal_ge ds (acc * 8 + d)
+      rw [hstep] at hv
+      omega
+    simp only [List.cons_append, chaosLoop, hplain, Bool.false_eq_true, ↓reduceIte, hoct, hacc, hdo.2]
+    have : 48 + d - 48 = d := by omega
+    rw [this, ih (fun x hx => hds x (by simp [hx])) _ (by rw [← hstep]; exact hv), hstep]
+
 end QV.ZF
